@@ -138,7 +138,11 @@ func (c *Checker) afterPure(line, op string, args []string, obs string) {
 			c.Report("C18", line, "answered `"+obs+"`, expected `"+want+"` (activation epoch "+strconv.FormatUint(c.activation, 10)+")")
 		}
 	case "registry":
-		if want := "registry " + strings.Join(AllFunctions, ","); strings.HasPrefix(obs, "registry ") && obs != want {
+		want := "registry " + strings.Join(AllFunctions, ",")
+		if len(args) == 2 && args[1] == "second" {
+			want += " bound=" + strconv.Itoa(len(AllFunctions))
+		}
+		if strings.HasPrefix(obs, "registry ") && obs != want {
 			c.Report("C18", line, "registry is `"+obs+"`, expected `"+want+"`")
 		}
 	case "build", "enccall", "buildstorage":
@@ -189,7 +193,8 @@ func (c *Checker) afterPure(line, op string, args []string, obs string) {
 			return
 		}
 		if bits := obs[i+3:]; strings.Trim(bits, "1") != "" {
-			c.Report("C20", line, "a merged-in account was mutated by MergeOutputAccounts: u="+bits)
+			c.Report("C20", line, "a merged-in account (or the memory behind its transfer slice) was mutated by MergeOutputAccounts: u="+bits)
+			c.Report("C13", line, "MergeOutputAccounts modified its input (the account merged in, or the spare capacity behind its transfer slice): u="+bits)
 		}
 	case "enctoken", "encmeta", "encroles", "bigenc":
 		c.enc = encMemo{}
